@@ -43,7 +43,8 @@ STREAMS = {
     "xor": {"relevant": True, "desc": "XorEncodedFile.from_file on BytesIO / OS file"},
     "pe": {"relevant": True, "desc": "the six pe.find_* helpers on BytesIO / OS file"},
     "pelimit": {"relevant": True, "desc": "pe.find_stage_prepend_append with Σ SizeOfRawData around the largest offset the file "
-                                           "system of the temporary file accepts (measured at start-up)"},
+                                           "system of the temporary file accepts (measured at start-up): the rejected seek (OS file) and "
+                                           "the accepted one (BytesIO) must both give (prepend, None)"},
     "art": {"relevant": True, "desc": "iter_artifactkit_payloads run to completion on BytesIO / OS file"},
     "http": {"relevant": True, "desc": "parse_raw_http"},
 }
@@ -55,11 +56,17 @@ TRUSTED = [
     "run as an ordinary file over the decoded bytes (C09 history_refines)",
 ]
 ASSUMPTIONS = [
-    "file offsets stay below 2^63 (every seek argument of the anchored code is a sum of at most 65537 unsigned 32-bit fields "
-    "and a file offset; OverflowError of seek is unreachable)",
+    "a file object's seek fails only with OSError / OverflowError / ValueError (offset above the file system's or the object's "
+    "largest offset, negative offset); the only seek of the anchored code whose argument can exceed 2^34 is the guarded one of "
+    "find_stage_prepend_append (Lean: for every limit L)",
+    "reads of an attacker-chosen size (ArtifactKit `fobj.read(size)`, size < 2^32) succeed: CPython's BufferedReader allocates "
+    "the requested size up front, i.e. 4 GiB of (untouched) address space must be available — under `ulimit -v` below that the "
+    "scanner raises MemoryError on a 22-byte real file (observation, environment-dependent, not reproduced by the harness)",
     "wall-clock time is not a Lean notion: termination is proved, the running time is only observed (watchdog) — inputs with "
-    "hundreds of `ff ff ff` markers / size-consistent nonce offsets in the first 1 KiB cost ~20 ms per candidate and call and are "
-    "generated in bounded numbers (see the measured worst cases in RULE)",
+    "hundreds of `ff ff ff` markers / size-consistent nonce offsets in the first 1 KiB cost ~20 ms per candidate and call "
+    "(Lean: at most |data| + 1024 candidates, 1024 steps each, `detector_step_bound`), every Guardrails marker behind offset 6138 "
+    "costs one key recovery of ~0.2 s (Lean: at most |data| records, `guard_scan_bound`); both are generated in bounded numbers "
+    "(<= 90 markers, <= 7 guard markers per input) so that no call comes near the 30 s watchdog (see the measured worst cases in RULE)",
     "xor_keys is left at its default (it is configuration, not untrusted input); all_xor_keys is exercised both ways",
 ]
 RULE = ("per entry point: exhaustive short strings over {00,01,ff,'M','Z',69,2e,8a}, runs, random up to 64 KiB, and for every valid "
@@ -535,9 +542,13 @@ def gen(tier, rng, shard, nshards):
         fam += 1
         k = fam * 5
 
-    def fk(i):
-        """file kind rotation for the ff entry points"""
-        return ("b", "o", "F0", "p")[i % 4]
+    def fk(i, n=0):
+        """file kind rotation for the ff entry points; the BytesIO handed to from_file stands at 0, inside, at or behind the
+        end of the data (the entry point must not depend on the position it is given)"""
+        k = ("b", "o", "F", "p")[i % 4]
+        if k == "F":
+            return "F" + str((0, 1, n // 2, n, n + 3, 0, 7, 0)[(i // 4) % 8])
+        return k
 
     def all_entries(data, tag, i=0, B=8192, ff=True, ak=None, pe_ops=PE_OPS, xor=True, art=True, both_kinds=False, rot=0):
         """one input through the entry points (file kinds rotate with `i` unless both_kinds; `rot` > 0: only `rot` of the
@@ -547,7 +558,7 @@ def gen(tier, rng, shard, nshards):
         if rot and len(pe_ops) > rot:
             pe_ops = tuple(pe_ops[(i * rot + q) % len(pe_ops)] for q in range(rot))
         if ff:
-            for kd in (("b", "o", "F0", "p") if both_kinds else (fk(i),)):
+            for kd in (("b", "o", "F0", "p", f"F{len(data)}") if both_kinds else (fk(i, len(data)),)):
                 use_ak = (i % 5 == 0) if ak is None else ak
                 yield ("ffall" if use_ak else "ff"), f"ff {kd} {B} {C.tf(use_ak)} {hx} {tag}"
         for kd in kinds:
@@ -889,7 +900,12 @@ def gen(tier, rng, shard, nshards):
     # guard markers at offsets 0..6137 and >= 6138, near the end of the data, unterminated / odd guard configurations
     def crafted_guard():
         total = 6144 + 2048 + 40
-        for off in ([0, 1, 5, 6, 100, 6131, 6132, 6137, 6138, 6139, 6144, 6150, 8000, total - 12, total - 11, total - 6, total - 1]):
+        offs = [0, 1, 5, 6, 100, 6131, 6132, 6137, 6138, 6139, 6144, 6150, 8000, total - 12, total - 11, total - 6, total - 1]
+        # markers in the first 6138 bytes (no room for a configuration in front: skipped, never a negative seek)
+        offs += [2, 3, 4, 7, 11, 12, 13, 1000, 3000, 6000, 6126, 6130, 6133, 6134, 6135, 6136]
+        if thorough:
+            offs += list(range(17, 6138, 53))
+        for off in offs:
             buf = bytearray(calm(bytearray(C.rbytes(rng, total))))
             mk = H17.fake_marker(rng)
             end = min(total, off + len(mk))
@@ -900,6 +916,16 @@ def gen(tier, rng, shard, nshards):
             buf = bytearray(calm(bytearray(C.rbytes(rng, n))))
             buf[n - 12:n] = H17.fake_marker(rng)
             yield f"guard-marker-short{n}", bytes(buf)
+        # several fake markers behind offset 6138 (each record costs one key recovery, ~0.2 s): the `continue` path of the loop in
+        # from_file; alone, and followed by a valid protected area (the first records recover nothing, the last one does)
+        for kmk in ((2, 6) if thorough else (2,)):
+            pre = bytearray(calm(bytearray(C.rbytes(rng, 6138 + 12 * kmk + 7))))
+            for j in range(kmk):
+                pre[6138 + 12 * j:6150 + 12 * j] = H17.fake_marker(rng)
+            yield f"guard-multi{kmk}", bytes(pre) + C.rbytes(rng, 30)
+            yield f"guard-multi{kmk}-cut", bytes(pre)[:6138 + 12 * kmk - 5]
+            payload, _ = guard_payload(rng, prefix=bytes(pre))
+            yield f"guard-multi{kmk}-valid", payload
         # area with odd guard configurations
         key = H17.make_key(rng, 4)
         cfg, _ = H17.make_cfg(rng, 60)
